@@ -188,7 +188,7 @@ func gaussJordan(a, x Matrix, b Vector, submatrix []bool) error {
   }
   return permuteRows(a, x, b, p)
 singular:
-  panic("system is computationally singular")
+  return errors.New("system is computationally singular")
 }
 
 func gaussJordanUpperTriangular(a, x Matrix, b Vector, submatrix []bool) error {
@@ -263,7 +263,7 @@ func gaussJordanUpperTriangular(a, x Matrix, b Vector, submatrix []bool) error {
   }
   return nil
 singular:
-  panic("system is computationally singular")
+  return errors.New("system is computationally singular")
 }
 
 /* -------------------------------------------------------------------------- */
